@@ -84,6 +84,21 @@ pub fn lookup(op: u8) -> Result<&'static Definition, String> {
 }
 
 /*
+ * Check that every operand of an instruction fits the width its encoding
+ * reserves for it. 'make' truncates silently, so the compiler uses this to
+ * reject programs that need a larger operand.
+ */
+pub fn operands_fit(op: Opcode, operands: &[usize]) -> bool {
+    match DEFINITIONS.get(&op) {
+        Some(def) => operands
+            .iter()
+            .zip(def.operand_widths)
+            .all(|(&o, &width)| width >= 8 || o < (1usize << (8 * width))),
+        None => true,
+    }
+}
+
+/*
  * Helper function to build up bytecode instructions
  * After calculating the final value of instruction_len, allocate the
  * 'instruction' vector with a fixed capacity and add the opcode as the
